@@ -48,6 +48,7 @@ def parseLayer (s : String) : Option Layer :=
   | "arp" => do pure (.arp (← getHex m "spa") (← getHex m "tpa"))
   | "raw" => some .raw
   | "other" => some .other
+  | "sll" => some .other          -- SLL keeps PDU::matches_response
   | "cacher" => some .cacher
   | _ => none
 
